@@ -283,6 +283,9 @@ func shapes(tier string) [][]fileSpec {
 		{{N: 2}, {N: 1}},
 		{{N: 1}, {N: 3}},
 		{{N: 2}, {N: 3, TxMode: "none"}},
+		// a per-file directive on a file that is NOT the last one: it must not leak into the files after it.
+		{{N: 1, TxMode: "none"}, {N: 2}},
+		{{N: 1, TxMode: "file"}, {N: 2}},
 		// checkpoints: a first run starts at the latest one; an older checkpoint and files follow it.
 		{{N: 1, Ck: true}, {N: 2, Ck: true}, {N: 1}, {N: 1}},
 	}
